@@ -287,3 +287,31 @@ T('c19-twin-threshold-spelling', ['C19', 'C01', 'C11'], 'tensors.py', "    d = l
 M('c20-3d-lstsq', 'C20', 'svd.py', "        M = np.array([teneva.get(Y_res[:mode], i, _to_item=False)[0]", "        M = np.array([teneva.get(Y_res[:mode], i, _to_item=False)")
 M('c20-mode-from-prev', 'C20', 'svd.py', "        n = shapes[mode]\n", "        n = shapes[mode-1]\n")
 M('c20-idx-length', 'C20', 'sample.py', "    I, idx, idx_many = [], [0], []", "    I, idx, idx_many = [], [], []")
+
+
+# ------------------------------------------------------------------ more twins
+T('c18-twin-clip', 'C18', 'grid.py',
+  "        Xsc = (X - a) / (b - a)\n        Xsc[Xsc < 0.] = 0.\n        Xsc[Xsc > 1.] = 1.",
+  "        Xsc = (X - a) / (b - a)\n        Xsc = np.clip(Xsc, 0., 1.)")
+T('c02-twin-tensordot', ['C02', 'C11', 'C16'], 'transformation.py',
+  "        Z[k-1] = np.einsum('ijq,ql', Z[k-1], U, optimize=True)", "        Z[k-1] = np.tensordot(Z[k-1], U, 1)")
+T('c03-twin-np-reshape', ['C03', 'C11'], 'svd.py',
+  "        Z = Z.reshape(q * k, -1)", "        Z = np.reshape(Z, (q * k, -1))")
+T('c07-twin-len-lt', 'C07', 'als.py', "        if idx.size == 0:", "        if len(idx) < 1:")
+T('c19-twin-last-core', ['C19', 'C01', 'C11'], 'tensors.py',
+  "    Y = [np.ones([1, k, 1]) * v for k in n]\n    Y[-1] *= s\n\n    if I_zero", "    Y = [np.ones([1, k, 1]) * v for k in n]\n    Y[d-1] = Y[d-1] * s\n\n    if I_zero")
+T('c14-twin-np-sum', 'C14', 'sample.py', "    p = np.maximum(p, 0)\n    p = p / p.sum()\n    ind = rand.choice", "    p = np.maximum(p, 0)\n    p /= np.sum(p)\n    ind = rand.choice")
+T('c05-twin-info-order', ['C05', 'C06'], 'cross.py',
+  "        info['nswp'] += 1\n        info['r'] = teneva.erank(Y)\n        info['e'] = teneva.accuracy(Y, Yold)\n        info['e_vld'] = teneva.accuracy_on_data(Y, I_vld, y_vld)\n\n        if info['m_cache']",
+  "        info['nswp'] += 1\n        info['e'] = teneva.accuracy(Y, Yold)\n        info['e_vld'] = teneva.accuracy_on_data(Y, I_vld, y_vld)\n        info['r'] = teneva.erank(Y)\n\n        if info['m_cache']")
+T('c09-twin-astype-copy', 'C09', 'stat.py', "    x = np.array(x, copy=True)\n    x.sort()", "    x = np.sort(np.asarray(x))")
+T('c16-twin-exponent-var', ['C16', 'C11'], 'core.py', "    p = int(np.floor(np.log2(v_max)))\n    Q = G / 2.**p\n\n    return Q, p0 + p", "    shift = int(np.floor(np.log2(v_max)))\n    Q = G / 2.**shift\n    p_new = p0 + shift\n\n    return Q, p_new")
+T('c04-twin-neg-index', ['C04', 'C11'], 'transformation.py', "    Z[i-1] = teneva._reshape(G1, (r1, n1, G1.shape[1]))", "    Z[i-1] = teneva._reshape(G1, (r1, n1, G1.shape[-1]))")
+T('c10-twin-default-none', 'C10', 'data.py', "def cache_to_data(cache={}):", "def cache_to_data(cache=None):\n    cache = {} if cache is None else cache")
+T('c13-twin-cores1-order', 'C13', 'anova.py', "            core[0, :, 0] = 1.\n            core[1, :, 1] = 1.\n            core[0, :, 1] = self.f1_arr[i]", "            core[0, :, 1] = self.f1_arr[i]\n            core[0, :, 0] = 1.\n            core[1, :, 1] = 1.")
+T('c15-twin-compare-flip', 'C15', 'optima.py', "    if y2 > y1:\n        return i1, y1, i2, y2\n    else:\n        return i2, y2, i1, y1", "    if y1 < y2:\n        return i1, y1, i2, y2\n    else:\n        return i2, y2, i1, y1")
+T('c17-twin-shift', 'C17', 'core.py', "    if 2**d != n:", "    if (1 << d) != n:")
+T('c12-twin-fill', 'C12', 'func.py', "    y = np.ones(m) * z", "    y = np.full(m, z, dtype=float)")
+T('c20-twin-stack', 'C20', 'svd.py', "    Y_res = [Y_curr[None, ...]]", "    Y_res = [Y_curr.reshape(1, Y_curr.shape[0], Y_curr.shape[1])]")
+T('c08-twin-ge', 'C08', 'maxvol.py', "    if n <= r:\n        raise ValueError('Input matrix should be \"tall\"')", "    if not n > r:\n        raise ValueError('Input matrix should be \"tall\"')")
+T('c01-twin-outer-plus', ['C01', 'C09'], 'act_two.py', "    Y = teneva.copy(Y1)\n    Y.extend(teneva.copy(Y2))\n    return Y", "    return teneva.copy(Y1) + teneva.copy(Y2)")
